@@ -374,6 +374,11 @@ func (c11) Gen(rs uint64, tier string, race bool) interface{} {
 	c.Files["names.txt"] = nn[1] + "\n" + nn[2] + "\n"
 	c.Files["map.in"] = nn[0] + "\tRenamedA\n" + nn[2] + "\tRenamedB\n"
 	c.Files["map.rev"] = "RenamedA\t" + nn[0] + "\nRenamedB\t" + nn[2] + "\n"
+	if r.Chance(0.5) {
+		// a name given several times (the last line wins), several names sent to one
+		c.Files["map.in"] += nn[0] + "\tRenamedC\n" + nn[1] + "\tRenamedB\n" + nn[0] + "\tRenamedD\n"
+		c.Files["map.rev"] += "RenamedC\t" + nn[0] + "\nRenamedD\t" + nn[0] + "\nRenamedE\t" + nn[2] + "\nRenamedF\t" + nn[0] + "\n"
+	}
 	c.Files["sites.txt"] = "0\n2\n3\n"
 	c.Files["replace.txt"] = "# name site char\n" + nn[0] + "\t1\tN\n" + nn[1] + "\t0\t-\n"
 	l := len(ns[0])
